@@ -237,7 +237,8 @@ def _conv(t, v, sab):
     if t[0] == "struct":
         return build_object(t[1], v, sab)
     if t[0] == "list":
-        return [_conv(t[1], x, sab) for x in v]
+        # elements of a list<string> (path_in_schema) are always str in the library's own callers
+        return [_conv(t[1], x, sab and t[1][0] != "string") for x in v]
     if t[0] == "string":
         return v["str"].encode("utf8") if sab else v["str"]
     if t[0] == "binary":
